@@ -11,16 +11,15 @@ import (
 	"github.com/regclient/regclient/zz_verif/imggen"
 )
 
-var imggenStyle = imggen.LayoutStyle{}
-
 // placeInfo is what the generator knows about the content of a place.
 type placeInfo struct {
 	p        Place
 	tags     []string
-	mans     []string // manifest digests
-	blobs    []string // blob digests
-	listTags []string // tags of indexes / manifest lists
-	artTags  []string // tags of artifact manifests (no image methods)
+	mans     []string          // manifest digests
+	blobs    []string          // blob digests
+	tagDig   map[string]string // tag -> manifest digest
+	listTags []string          // tags of indexes / manifest lists
+	artTags  []string          // tags of artifact manifests (no image methods)
 }
 
 // Throttled is the set of bindings that take a slot of the parallelism
@@ -46,6 +45,11 @@ type sgen struct {
 	// raise after it took the throttle was generated: later statements of this and
 	// of later scripts are then biased towards throttled calls.
 	afterCfg *bool
+	// match is the digest of the content the statement under construction writes
+	// (when known); forceMatch makes tgtFor use it.
+	match      string
+	matchLabel string
+	forceMatch bool
 }
 
 // canBlobGet reserves one blob.get on the place's host (layouts are unlimited).
@@ -134,11 +138,26 @@ func (g *sgen) refExpr(base, tag, dig string, forceStr bool, label string, calls
 	if dig != "" {
 		full += "@" + dig
 	}
-	form := g.draw(5, label+"_form")
+	form := g.draw(6, label+"_form")
 	if forceStr || form <= 1 {
 		return q(full)
 	}
 	*calls = append(*calls, "reference.new")
+	if form == 5 && (tag != "" || dig != "") {
+		// derived through the reference methods of another reference
+		var sb strings.Builder
+		sb.WriteString("(function() local s = reference.new(" + q(full) + ") local r = reference.new(" + q(base) + ")")
+		if tag != "" {
+			sb.WriteString(" r:tag(s:tag())")
+			*calls = append(*calls, "reference:tag")
+		}
+		if dig != "" {
+			sb.WriteString(" r:digest(s:digest())")
+			*calls = append(*calls, "reference:digest")
+		}
+		sb.WriteString(" return r end)()")
+		return sb.String()
+	}
 	if form == 2 || (tag == "" && dig == "") {
 		return "reference.new(" + q(full) + ")"
 	}
@@ -575,7 +594,40 @@ func (g *sgen) mutBody() *body {
 		case 1:
 			pre, post = `  if t ~= "other" and string.len(t) < 40 then `, " end"
 		}
-		switch g.draw(5, "inner") {
+		inner := g.draw(7, "inner")
+		if inner >= 5 {
+			// walk a manifest list and put every platform manifest by its digest
+			b = &body{kind: "loop-manifest.put-by-digest", mut: "manifest.put"}
+			tp := g.place("", "tpl")
+			lt := "canonlist"
+			if g.chance(30, "anylist") {
+				lt = g.pick(pi.listTags, "lt", "canonlist")
+			}
+			b.arg("walk-list-entries,target-digest=matching")
+			b.add("local base = %s", q(pi.p.Base()))
+			b.add("local l = manifest.getList(base .. %s)", q(":"+lt))
+			b.add("for i, d in ipairs(l.manifests or {}) do")
+			b.add("  local r = reference.new(base)")
+			b.add("  r:digest(d.digest)")
+			b.add("  local m = manifest.get(r)")
+			b.add("  local tgt = reference.new(%s)", q(tp.p.Base()))
+			if g.chance(40, "wtag") {
+				b.add(`  tgt:tag("p%d-" .. i)`, g.k)
+			}
+			b.add("  tgt:digest(r:digest())")
+			if g.chance(50, "meth") {
+				b.add("  m:put(tgt)")
+				b.call("manifest:put")
+			} else {
+				b.add("  manifest.put(m, tgt)")
+				b.call("manifest.put")
+			}
+			b.add(`  log("put " .. i .. " " .. tostring(tgt))`)
+			b.add("end")
+			b.call("manifest.getList", "manifest.get", "reference.new", "reference:digest", "reference:tag", "reference.__tostring")
+			return b
+		}
+		switch inner {
 		case 0:
 			b.kind, b.mut = "loop-tag.delete", "tag.delete"
 			b.add(pre + "tag.delete(r)" + post)
@@ -612,6 +664,7 @@ func (g *sgen) mutBody() *body {
 
 // stmt draws one top-level statement.
 func (g *sgen) stmt() Stmt {
+	g.match, g.matchLabel, g.forceMatch = "", "", false
 	var b *body
 	protected := g.chance(70, "pcall")
 	switch x := g.draw(100, "cat"); {
@@ -737,7 +790,7 @@ func Gen(t *rapid.T) Case {
 	infos := make([]placeInfo, len(c.Places))
 	for i, p := range c.Places {
 		g := c.Graphs[p.Graph]
-		pi := placeInfo{p: p}
+		pi := placeInfo{p: p, tagDig: map[string]string{}}
 		for tg := range g.Tags {
 			pi.tags = append(pi.tags, tg)
 		}
@@ -746,6 +799,7 @@ func Gen(t *rapid.T) Case {
 			pi.mans = append(pi.mans, n.Digest)
 		}
 		for _, tg := range pi.tags {
+			pi.tagDig[tg] = g.Nodes[g.Tags[tg]].Digest
 			switch g.Nodes[g.Tags[tg]].Kind {
 			case "index":
 				pi.listTags = append(pi.listTags, tg)
@@ -757,6 +811,12 @@ func Gen(t *rapid.T) Case {
 			pi.blobs = append(pi.blobs, d)
 		}
 		sort.Strings(pi.blobs)
+		// the canonical image and index every place holds (canon.go)
+		pi.tags = append(pi.tags, "canon", "canonlist")
+		pi.listTags = append(pi.listTags, "canonlist")
+		pi.tagDig["canon"], pi.tagDig["canonlist"] = Canon.Man1D, Canon.IndexD
+		pi.mans = append(pi.mans, Canon.Man1D, Canon.Man2D, Canon.IndexD)
+		pi.blobs = append(pi.blobs, Canon.Cfg1D, Canon.LayerD)
 		infos[i] = pi
 	}
 
